@@ -3,8 +3,10 @@ mod imp;
 mod gen;
 mod c03;
 mod c08;
+mod c09;
 mod c10;
 mod c11;
+mod c12;
 mod xs;
 mod val;
 mod smoke;
@@ -49,8 +51,10 @@ fn main() {
         match id.as_str() {
             "C03" => c03::replay(&v),
             "C08" => c08::replay(&v),
+            "C09" => c09::replay(&v),
             "C10" => c10::replay(&v),
             "C11" => c11::replay(&v),
+            "C12" => c12::replay(&v),
             _ => {
                 eprintln!("no replay for {id}");
                 2
@@ -60,8 +64,10 @@ fn main() {
         match id.as_str() {
             "C03" => c03::run(tier),
             "C08" => c08::run(tier),
+            "C09" => c09::run(tier),
             "C10" => c10::run(tier),
             "C11" => c11::run(tier),
+            "C12" => c12::run(tier),
             "SMOKE" => smoke::run("/tmp/x/smoke"),
             _ => {
                 eprintln!("unknown property {id}");
